@@ -1245,42 +1245,40 @@ class System:
             rails.remove("")
             rail, vin, iin, pwr, loss, eff = [], [], [], [], [], []
             warn, phases, res = [], [], {}
-            if len(rails) > 0:
-                for ph in phase_list:
-                    for r in rails:
-                        rail += [r]
-                        phases += [ph]
-                        if ph != "":
-                            filt = (df["Rail in"] == r) & (df["Phase"] == ph)
-                        else:
-                            filt = df["Rail in"] == r
-                        vin += [df[filt]["Vin (V)"].tolist()[0]]
-                        iin += [sum(df[filt]["Iin (A)"])]
-                        p = sum(df[filt]["Power (W)"])
-                        pwr += [p]
-                        l = sum(df[filt]["Loss (W)"])
-                        loss += [l]
-                        if l == 0.0:
-                            eff += [100.0]
-                        else:
-                            eff += [100 * p / (p + l)]
-                        w = list(set(df[filt]["Warnings"].tolist()))
-                        if len(w) > 1:
-                            if "" in w:
-                                w.remove("")
-                            warn += [", ".join(w)]
-                        else:
-                            warn += [""]
-                if phase_list != [""]:
-                    res["Phase"] = phases
-                res["Rail"] = rail
-                res["Voltage (V)"] = vin
-                res["Current (A)"] = iin
-                res["Power (W)"] = pwr
-                res["Loss (W)"] = loss
-                res["Efficiency (%)"] = eff
-                res["Warnings"] = warn
-                return pd.DataFrame(res)
+            for ph in phase_list:
+                for r in rails:
+                    if ph != "":
+                        filt = (df["Rail in"] == r) & (df["Phase"] == ph)
+                    else:
+                        filt = df["Rail in"] == r
+                    if not filt.any():  # rail feeds nothing in this phase
+                        continue
+                    rail += [r]
+                    phases += [ph]
+                    vin += [df[filt]["Vin (V)"].tolist()[0]]
+                    iin += [sum(df[filt]["Iin (A)"])]
+                    p = sum(df[filt]["Power (W)"])
+                    pwr += [p]
+                    l = sum(df[filt]["Loss (W)"])
+                    loss += [l]
+                    if l == 0.0:
+                        eff += [100.0]
+                    else:
+                        eff += [100 * p / (p + l)]
+                    w = sorted(set(df[filt]["Warnings"].tolist()))
+                    if "" in w:
+                        w.remove("")
+                    warn += [", ".join(w)]
+            if phase_list != [""]:
+                res["Phase"] = phases
+            res["Rail"] = rail
+            res["Voltage (V)"] = vin
+            res["Current (A)"] = iin
+            res["Power (W)"] = pwr
+            res["Loss (W)"] = loss
+            res["Efficiency (%)"] = eff
+            res["Warnings"] = warn
+            return pd.DataFrame(res)
         else:
             return df
 
